@@ -41,6 +41,8 @@ class TConn:
         self.timeout = None
         self.parser = None
         self.initialized = False
+        # PROXY protocol info of the connection (sent once, before the first request)
+        self.proxy_protocol_info = {}
 
         # set the socket to non blocking
         self.sock.setblocking(False)
@@ -276,6 +278,13 @@ class ThreadWorker(base.Worker):
             req = next(conn.parser)
             if not req:
                 return (False, conn)
+
+            # the PROXY line is only sent before the first request of a
+            # connection: remember it for the following keepalive requests
+            if req.proxy_protocol_info:
+                conn.proxy_protocol_info = req.proxy_protocol_info
+            else:
+                req.proxy_protocol_info = conn.proxy_protocol_info
 
             # handle the request
             keepalive = self.handle_request(req, conn)
